@@ -817,6 +817,15 @@ impl World {
                 }
             }
         }
+        // A reloaded asset gained a dependency on an asset that was reloaded in the same pass
+        // (or the model itself found the pass order-sensitive): which of the two ran first is not
+        // specified, so the *real* dependency graph may now differ from the model's without any
+        // value showing it. Precision and attribution cannot be judged on top of that: the
+        // history ends here (what was observed so far has been judged).
+        if (j.precision || j.attribution) && (!rewired.is_empty() || !res.order_sensitive.is_empty()) && self.aborted.is_none() {
+            self.aborted = Some("dependency graph depends on the reload order of the last pass".into());
+            rep.count("histories_stopped_after_an_order_sensitive_pass", 1);
+        }
         // entries the pass created as a side effect
         self.track_all();
         self.fresh_entries.clear();
